@@ -225,8 +225,16 @@ def op_tlv_fsreq_pack(a):
     return out
 
 
+def _declared_len_check(o, raw):
+    # every accepted filestore TLV reports exactly the length its TLV header declares
+    _need(int(o.packet_len) == 2 + raw[1], f"packet_len={o.packet_len} != declared TLV length {2 + raw[1]}")
+
+
 def op_tlv_fsreq_unpack(a):
-    return _fsreq_out(FileStoreRequestTlv.unpack(unhx(a["raw"])))
+    raw = unhx(a["raw"])
+    o = FileStoreRequestTlv.unpack(raw)
+    _declared_len_check(o, raw)
+    return _fsreq_out(o)
 
 
 def op_tlv_fsreq_from_tlv(a):
@@ -274,7 +282,10 @@ def op_tlv_fsresp_pack(a):
 
 
 def op_tlv_fsresp_unpack(a):
-    return _fsresp_out(FileStoreResponseTlv.unpack(unhx(a["raw"])))
+    raw = unhx(a["raw"])
+    o = FileStoreResponseTlv.unpack(raw)
+    _declared_len_check(o, raw)
+    return _fsresp_out(o)
 
 
 def op_tlv_fsresp_from_tlv(a):
@@ -774,17 +785,28 @@ class C08(Prop):
             a, stn = b0 >> 4, b0 & 15
             f, s, m = rand_utf8(rng, 12), rand_utf8(rng, 12), rbytes(rng, rng.randint(0, 5))
             sfx = rbytes(rng, rng.choice([0, 0, 3]))
-            v = fs_value(a, stn, f, s) + rbytes(rng, rng.choice([0, 0, 2]))  # trailing octets inside the value are ignored
+            v = fs_value(a, stn, f, s)
             yield Case({"op": "tlv_fsreq_unpack", "raw": hx(bytes([0, len(v)]) + v + sfx)},
                        "valid" if a in ACTIONS else "invalid", errclass=True, tag="first-octet-sweep")
             yield Case({"op": "tlv_fsreq_from_tlv", "type": 0, "value": hx(v)},
                        "valid" if a in ACTIONS else "invalid", errclass=True, tag="first-octet-sweep")
-            v = fs_value(a, stn, f, s, m) + rbytes(rng, rng.choice([0, 0, 2]))
+            # octets after the names inside the value field ("slack") must be refused (repair d425927)
+            vs = v + rng.choice([b"\x00", b"\x01a", rbytes(rng, 1), rbytes(rng, 2), rbytes(rng, 3)])
+            yield Case({"op": "tlv_fsreq_unpack", "raw": hx(bytes([0, len(vs)]) + vs + sfx)}, "invalid", errclass=True,
+                       tag="first-octet-sweep-slack")
+            yield Case({"op": "tlv_fsreq_from_tlv", "type": 0, "value": hx(vs)}, "invalid", errclass=True,
+                       tag="first-octet-sweep-slack")
+            v = fs_value(a, stn, f, s, m)
             ok = b0 in STATUS_NAT
             yield Case({"op": "tlv_fsresp_unpack", "raw": hx(bytes([1, len(v)]) + v + sfx)},
                        "valid" if ok else "invalid", errclass=True, tag="first-octet-sweep")
             yield Case({"op": "tlv_fsresp_from_tlv", "type": 1, "value": hx(v)},
                        "valid" if ok else "invalid", errclass=True, tag="first-octet-sweep")
+            vs = v + rng.choice([b"\x00", b"\x01a", rbytes(rng, 1), rbytes(rng, 2), rbytes(rng, 3)])
+            yield Case({"op": "tlv_fsresp_unpack", "raw": hx(bytes([1, len(vs)]) + vs + sfx)}, "invalid", errclass=True,
+                       tag="first-octet-sweep-slack")
+            yield Case({"op": "tlv_fsresp_from_tlv", "type": 1, "value": hx(vs)}, "invalid", errclass=True,
+                       tag="first-octet-sweep-slack")
         # decoders: foreign types, every type octet
         for t in range(256):
             for cls, own in (("fsreq", 0), ("fsresp", 1)):
@@ -807,6 +829,16 @@ class C08(Prop):
             for cls, v in (("fsreq", fs_value(a, 0, f, s)), ("fsresp", fs_value(a, st & 15, f, s, m))):
                 raw = bytes([0 if cls == "fsreq" else 1, len(v)]) + v
                 yield Case({"op": f"tlv_{cls}_unpack", "raw": hx(raw + rbytes(rng, 4))}, "valid", tag="sample+suffix")
+                # slack inside the value field (declared length grown, names unchanged): refused
+                for slack in (b"\x00", b"\x01", b"\x01a", b"\x00\x00", rbytes(rng, rng.randint(1, 6)), v):
+                    vs = v + slack
+                    if len(vs) <= 255:
+                        yield Case({"op": f"tlv_{cls}_unpack", "raw": hx(raw[:1] + bytes([len(vs)]) + vs + rbytes(rng, 2))},
+                                   "invalid", errclass=True, tag="slack-in-value-field")
+                        yield Case({"op": f"tlv_{cls}_from_tlv", "type": raw[0], "value": hx(vs)},
+                                   "invalid", errclass=True, tag="slack-in-value-field")
+                # ... while the same octets after the TLV (declared length unchanged) are not looked at
+                yield Case({"op": f"tlv_{cls}_unpack", "raw": hx(raw + b"\x00")}, "valid", tag="sample+suffix")
                 for k in range(len(raw)):
                     yield Case({"op": f"tlv_{cls}_unpack", "raw": hx(raw[:k])}, "invalid", tag="truncation")
                 for k in range(len(v)):
@@ -846,6 +878,10 @@ class C08(Prop):
         for good in UTF8_GOOD:
             vv = fs_value(3, 0, good, good)
             yield Case({"op": "tlv_fsreq_from_tlv", "type": 0, "value": hx(vv)}, "valid", tag="name-utf8-boundary")
+        yield Case({"op": "tlv_fsreq_unpack", "raw": "000a0005612e747874010203"}, "invalid", errclass=True, tag="slack-in-value-field")
+        yield Case({"op": "tlv_fsreq_unpack", "raw": "00070005612e747874010203"}, "valid", tag="sample+suffix")
+        yield Case({"op": "tlv_fsresp_unpack", "raw": "010510016100" + "09"}, "invalid", errclass=True, tag="slack-in-value-field")
+        yield Case({"op": "tlv_fsresp_unpack", "raw": "010410016100" + "09"}, "valid", tag="sample+suffix")
         for cls, t in (("fsreq", 0), ("fsresp", 1)):
             yield Case({"op": f"tlv_{cls}_from_tlv", "type": t, "value": ""}, "invalid", errclass=True, tag="empty-value")
             yield Case({"op": f"tlv_{cls}_unpack", "raw": hx(bytes([t, 0]))}, "invalid", errclass=True, tag="empty-value")
